@@ -19,6 +19,7 @@ open Sd
 open Ivfc
 open IvfcWrite
 open Dpfs
+open DpfsWrite
 open IvfcRead
 open Driver_base
 
@@ -286,6 +287,18 @@ let run_dpfsread toks =
       | _ -> failwith "req") reqs)
   | _ -> failwith "dpfsread args"
 
+(* dpfswrite <lv1 data> <selector> <lv2 data> <bs2> <lv3 area> <size3> <bs3> pos,hex ...  ->  counts... | final area *)
+let run_dpfswrite toks =
+  match toks with
+  | l1 :: sel :: l2 :: bs2 :: l3 :: size3 :: bs3 :: ws ->
+    let d1 = bytes_of_hex l1 and d2 = bytes_of_hex l2 in
+    let words = lv2_words d2 (z_of_hex bs2) (lv1_words d1 (z_of_hex sel)) in
+    let (area, counts) = Stdlib.List.fold_left (fun (area, counts) w -> match String.split_on_char ',' w with
+      | [p; d] -> let (a, n) = lv3_write area (z_of_hex size3) (z_of_hex bs3) words (z_of_hex p) (bytes_of_hex d) in (a, hex_of_z n :: counts)
+      | _ -> failwith "write") (bytes_of_hex l3, []) ws in
+    String.concat " " (Stdlib.List.rev counts) ^ " | " ^ hex_of_bytes area
+  | _ -> failwith "dpfswrite args"
+
 (* lv4read <verify 0/1> <bs1..bs4> <L1..L4> <master> pos,n ...  ->  hex per read *)
 let run_lv4read toks =
   match toks with
@@ -439,6 +452,7 @@ let dispatch (line : string) : string =
   | "ivfc" :: toks -> run_ivfc toks
   | "ivfcw" :: toks -> run_ivfcw toks
   | "dpfsread" :: toks -> run_dpfsread toks
+  | "dpfswrite" :: toks -> run_dpfswrite toks
   | "lv4read" :: toks -> run_lv4read toks
   | "close" :: toks -> run_close toks
   | "nandhdr" :: toks -> run_nandhdr toks
